@@ -273,6 +273,42 @@ func labelsCheck(c *Case, run *Run) string {
 			got = append(got, v)
 		}
 	}
+	// without any filtering (no -filter, no fixed-order list) every input that contains result
+	// lines must show up, in argument order: a record-less input before it must not end the run
+	filtering := false
+	for _, a := range c.Flags {
+		if a == "-filter" || strings.Contains(a, "@(") {
+			filtering = true
+		}
+	}
+	if !filtering {
+		content := map[string]string{}
+		for _, f := range c.Files {
+			content[f.Name] = f.Content
+		}
+		var must []string
+		for k, a := range c.Args {
+			path := a
+			if i := strings.Index(a, "="); i >= 0 {
+				path = a[i+1:]
+			}
+			if path == "-" {
+				path = c.Stdin
+			}
+			has := false
+			for _, l := range strings.Split(content[path], "\n") {
+				if strings.HasPrefix(l, "Benchmark") && !strings.HasPrefix(l, "BenchmarkBroken") {
+					has = true
+				}
+			}
+			if has && (len(must) == 0 || must[len(must)-1] != want[k]) {
+				must = append(must, want[k])
+			}
+		}
+		if strings.Join(must, "\x00") != strings.Join(got, "\x00") {
+			return fmt.Sprintf("results-labelled-%q-but-the-inputs-with-results-are-%q", got, must)
+		}
+	}
 	i := 0
 	for _, g := range got {
 		for i < len(want) && want[i] != g {
